@@ -130,6 +130,8 @@ def gen_world(rng):
             meta["activation_steps"] = [393.0, 423.0, float("nan")] if rng.random() < 0.6 else [393.0, 423.0]
             if rng.random() < 0.5:
                 meta["instrument"] = {"name": "M-3", "drift": float("nan")}
+        if rng.random() < 0.35:
+            meta["cycle_temperatures__np"] = [350.5, 0.7, 423.25]     # built as numpy scalars (see worlds/build.py)
         isos.append(n2_iso(p, l, mat_a, meta=meta))
         if rng.random() < 0.7:
             p, l = _type_ii(rng)
@@ -155,6 +157,8 @@ def gen_world(rng):
                     "units": {"pressure_mode": "absolute", "pressure_unit": pu_i, "loading_basis": "molar",
                               "loading_unit": "mmol", "material_basis": "mass", "material_unit": "g", "temperature_unit": "K"},
                     "meta": {}, "pressure": [x * pf for x in p], "loading": l, "branch": "ads", "other": {}}
+            if not fam and rng.random() < 0.3:
+                spec["meta"] = {"dosing_steps__np": [0.05, 0.1, 0.25]}
             if rng.random() < 0.6:
                 spec["other"] = {"enthalpy": [round(par["q"] / 1000.0 * (1.0 + 0.6 * math.exp(-4.0 * x / par["nm"])), 6) for x in l]}
             fam.append(len(isos))
@@ -201,7 +205,8 @@ def gen_world(rng):
     # model isotherms with explicit parameters, on the same gases (IAST with models, ModelIsotherm queries)
     if rng.random() < 0.6 and ("family" in roles or "partner" in roles):
         src = isos[roles["family"][-1]] if "family" in roles else isos[roles["partner"]]
-        name = rng.choice(["Langmuir", "Langmuir", "DSLangmuir", "Henry", "Toth", "TemkinApprox", "JensenSeaton", "TSLangmuir"])
+        name = rng.choice(["Langmuir", "Langmuir", "DSLangmuir", "Henry", "Toth", "TemkinApprox", "JensenSeaton", "TSLangmuir",
+                           "DR", "DA"])
         munit = rng.choice(["bar", "bar", "Pa"])
         ps = 1.0 if munit == "bar" else 1e-5      # affinity constants are per pressure unit
         j = rng.uniform(0.9, 1.1)                   # full-precision parameters, as a fit would produce them
@@ -210,12 +215,19 @@ def gen_world(rng):
                 # models whose inverse (pressure at loading) is solved numerically
                 "TemkinApprox": {"n_m": 4.0 * j, "K": 1.5 * j * ps, "tht": -0.1},
                 "JensenSeaton": {"K": 3.0 * j * ps, "a": 4.0 * j, "b": 0.5 * ps, "c": 1.0},
-                "TSLangmuir": {"n_m1": 1.5 * j, "n_m2": 2.0, "n_m3": 1.0, "K1": 3.0 * j * ps, "K2": 0.5 * ps, "K3": 0.05 * ps}}[name]
+                "TSLangmuir": {"n_m1": 1.5 * j, "n_m2": 2.0, "n_m3": 1.0, "K1": 3.0 * j * ps, "K2": 0.5 * ps, "K3": 0.05 * ps},
+                # potential-theory models (their thermal factor depends on the isotherm's temperature)
+                "DR": {"n_m": 4.0 * j, "e": 6000.0 * j}, "DA": {"n_m": 4.0 * j, "e": 6000.0 * j, "m": 2.5}}[name]
+        if name in ("DR", "DA"):
+            munit = "bar"          # these models work in relative pressure 0..1; keep the numbers in that range
         roles["model"] = len(isos)
         isos.append({"kind": "model", "material": src["material"], "adsorbate": src["adsorbate"], "temperature": src["temperature"],
                      "units": dict(src["units"], pressure_unit=munit), "meta": {"branch": "ads"},
-                     "model": {"name": name, "rmse": 0.01, "parameters": pars, "pressure_range": [0.01 / ps, 10.0 / ps],
-                               "loading_range": [0.01, 5.0]}})
+                     "model": {"name": name, "rmse": 0.01, "parameters": pars,
+                               "pressure_range": [0.01 / ps, 10.0 / ps] if name not in ("DR", "DA") else [0.001, 0.95],
+                               "loading_range": [0.01, 5.0] if name not in ("DR", "DA") else [0.01, 3.9]}})
+        if name in ("DR", "DA"):
+            isos[-1]["units"]["pressure_unit"] = "bar"
     if "model" in roles and "partner" in roles and rng.random() < 0.7:
         src = isos[roles["partner"]]
         roles["model_b"] = len(isos)
